@@ -19,5 +19,10 @@ class TheCheck(HarrCheck):
         "slot.count/usedslots/num modelled unbounded (exact while no home carries more than 32767 keys and maxslots < 2^31)",
     ]
 
+    def streams(self):
+        # the convenience entry points on top of put/get (formatted put with every length, getstr)
+        from checks import harrmem
+        return list(super().streams()) + harrmem.glue_streams(self)
+
     def judge_history(self, ops, impl_lines):
         return H.judge_c06(ops, impl_lines)
